@@ -616,6 +616,67 @@ def r4(k: Kit) -> None:
                   'aborts the whole file', fi.loc(fi.node))
 
 
+def r3_accumulate(k: Kit) -> None:
+    """Repeated authorized_keys options accumulate (sshd(8): several from=,
+    principals=, permitopen=, environment= on one line all apply)."""
+    rep = k.rep
+    idx = k.idx
+    cls = idx.cls('auth_keys._SSHAuthorizedKeyEntry')
+    tbl = None
+    for st in cls.node.body:
+        if isinstance(st, ast.Assign) and any(
+                isinstance(t, ast.Name) and t.id == '_handlers'
+                for t in st.targets) and isinstance(st.value, ast.Dict):
+            tbl = st.value
+    if tbl is None:
+        rep.error('C17.R3', 'auth_keys._handlers', 'option handler table '
+                  'not found')
+        return
+    multi = {'environment', 'from', 'permitopen', 'principals', 'subject'}
+    seen = set()
+    for kk, vv in zip(tbl.keys, tbl.values):
+        if not (isinstance(kk, ast.Constant) and isinstance(vv, ast.Name)):
+            continue
+        opt, hname = kk.value, vv.id
+        if opt not in multi:
+            continue
+        seen.add(opt)
+        fi = cls.methods.get(hname)
+        if fi is None:
+            rep.error('C17.R3', f'handler {hname}', 'handler not found')
+            continue
+        pname = fi.params[1] if len(fi.params) > 1 else 'option'
+        overwrite = [n for n in ast.walk(fi.node)
+                     if isinstance(n, (ast.Assign, ast.AnnAssign)) and any(
+                         isinstance(t, ast.Subscript) and
+                         dotted(t.value) == 'self.options'
+                         for t in (n.targets if isinstance(n, ast.Assign)
+                                   else [n.target]))]
+        sd = [c for c in ast.walk(fi.node) if isinstance(c, ast.Call) and
+              isinstance(c.func, ast.Attribute) and
+              c.func.attr == 'setdefault' and
+              dotted(c.func.value) == 'self.options' and c.args and
+              isinstance(c.args[0], ast.Name) and c.args[0].id == pname]
+        mut = [c for c in ast.walk(fi.node) if
+               (isinstance(c, ast.Call) and isinstance(c.func, ast.Attribute)
+                and c.func.attr in ('append', 'add', 'update', 'extend')) or
+               (isinstance(c, ast.Assign) and any(
+                   isinstance(t, ast.Subscript) and
+                   dotted(t.value) != 'self.options' for t in c.targets))]
+        rep.check(not overwrite and bool(sd) and bool(mut), 'C17.R3',
+                  key(fi, f'`{opt}=` accumulates'),
+                  f'repeated `{opt}=` options are collected '
+                  '(setdefault + add), none is dropped',
+                  f'handler of `{opt}=` ' + (
+                      'overwrites self.options[option]: of several '
+                      f'`{opt}=` options on one line only the last is '
+                      'enforced (fail-open for from= / principals=)'
+                      if overwrite else
+                      'does not collect into the setdefault container'),
+                  fi.loc(fi.node))
+    rep.floor('C17.R3', 'accumulating option handlers', len(seen), 5)
+
+
 def run(idx, rep, tier):
     k = Kit(idx, rep)
     rep.assumptions += NOT_DECIDED
@@ -624,4 +685,5 @@ def run(idx, rep, tier):
     r1(k)
     r2(k)
     r3(k)
+    r3_accumulate(k)
     r4(k)
